@@ -178,7 +178,7 @@ class OperationGroup(ContextMixin, ContentMixin):
                 )
             ),
             # every content pays for its own bytes and gas, otherwise a batch falls below the node's minimal fee
-            'fee': lambda i, x: str(default_fee(x, gas_limit, minimal_nanotez_per_gas_unit)),
+            'fee': lambda i, x: str(default_fee(x, gas_limit, minimal_nanotez_per_gas_unit, constants)),
         }
 
         def fill_content(idx, content):
